@@ -36,7 +36,7 @@ func init() {
 		Facts:      facts,
 		NonTrivial: nonTrivial,
 		Rule: "cases of three kinds: id (Base32 / ParseBase32 / FormatInt numerals / NewIdGenerator fields / bit composition), " +
-			"str (StrGenerator over a scripted rand.Source: character sets of 1..70 runes incl. multi-byte and invalid bytes, n in -1..40), " +
+			"magnitude (ParseBase32 on inputs of length 1..40 with invalid bytes at every position incl. left of the last 13 characters, 256-value sweeps at positions of long inputs, valid long numerals), str (StrGenerator over a scripted rand.Source: character sets of 1..300 runes incl. multi-byte, Latin-1-only and invalid bytes, sizes 2^k and 2^k±1, n in -1..40, large stream n up to 5000), " +
 			"count (CountGenerator with 1..5 rules added in random order, Generate/Min/Max at diffs around every period boundary), countraw (2..16 rules installed through reflection in a given order: sorted by period with equal periods in every relative order, 10% unsorted for the model tie only); " +
 			"non-trivial = id case with a ParseBase32 of an input containing a byte outside the alphabet or of a 2+ character numeral, " +
 			"str case with at least one rejected index or a word refill, count case crossing at least one period boundary; distinct by hash of the lines",
@@ -614,8 +614,27 @@ func classify(c core.Case, out []string) []string {
 				switch {
 				case !valid:
 					ls = append(ls, "p32-invalid-byte")
+					if len(b) > 13 {
+						first := 0
+						for first < len(b) && inAlphabet(b[first]) >= 0 {
+							first++
+						}
+						if first < len(b)-13 {
+							ls = append(ls, "p32-invalid-only-left-of-last-13")
+						}
+						last := len(b) - 1
+						for last >= 0 && inAlphabet(b[last]) >= 0 {
+							last--
+						}
+						if last < len(b)-13 {
+							ls = append(ls, "p32-all-invalid-left-of-last-13")
+						}
+					}
 				case len(b) >= 13:
 					ls = append(ls, "p32-overflow-length")
+					if len(b) > 20 {
+						ls = append(ls, "p32-valid-longer-than-20")
+					}
 				case len(b) >= 2:
 					ls = append(ls, "p32-multi-char")
 				default:
